@@ -468,14 +468,14 @@ Lanczos iteration, imaginary time step) -/
 example : ∃ A1 : T3 ℂ, localHamiltonianStep exK ones111 ones111 exWz Evo.exA Complex.I 1 = .ok A1 ∧
     BlockSparse (ones111 : T3 ℂ) [0] [0] ∧ SparseT4 exWz [0, 1] [0] [0] ∧ exWz.d0 = exWz.d1 ∧
     (ones111 : T3 ℂ).d2 = (ones111 : T3 ℂ).d0 ∧ SparseT3 Evo.exA [0, 1] [0] [0] ∧ SparseT3 A1 [0, 1] [0] [0] := by
-  obtain ⟨A1, h⟩ := localStep_ok_one (k := exK) rfl (L := ones111) (R := ones111) (W := exWz) exA_pos Complex.I
+  obtain ⟨A1, h⟩ := localStep_ok_one (k := exK) rfl (L := ones111) (R := ones111) (W := exWz) sqrtNorm_contract exA_pos Complex.I
   exact ⟨A1, h, ones_blockSparse, exWz_sparse, rfl, rfl, exA_sparse,
     (local_step_sparse h ones_blockSparse ones_blockSparse exWz_sparse rfl rfl rfl exA_sparse).1⟩
 
 /-- non-vacuity of `minimize_sparse` -/
 example : ∃ (en : ℝ) (Aopt : T3 ℂ), minimizeLocalEnergy exK ones111 ones111 exWz Evo.exA 1 = .ok (en, Aopt) ∧
     SparseT3 Aopt [0, 1] [0] [0] := by
-  obtain ⟨⟨en, Aopt⟩, h⟩ := minimize_ok_one (k := exK) rfl (L := ones111) (R := ones111) (W := exWz) exA_pos
+  obtain ⟨⟨en, Aopt⟩, h⟩ := minimize_ok_one (k := exK) rfl (L := ones111) (R := ones111) (W := exWz) sqrtNorm_contract exA_pos
   exact ⟨en, Aopt, h, (minimize_sparse h ones_blockSparse ones_blockSparse exWz_sparse rfl rfl rfl exA_sparse).1⟩
 
 theorem exC_sparse : Sparse exC [0] [0] := by
@@ -488,7 +488,7 @@ theorem exC_sparse : Sparse exC [0] [0] := by
 /-- non-vacuity of `bond_step_sparse` -/
 example : ∃ C1 : Mat ℂ, localBondStep exK ones111 ones111 exC Complex.I 1 = .ok C1 ∧ Sparse exC [0] [0] ∧
     Sparse C1 [0] [0] := by
-  obtain ⟨C1, h⟩ := bondStep_ok_one (k := exK) rfl (L := ones111) (R := ones111) exC_pos Complex.I
+  obtain ⟨C1, h⟩ := bondStep_ok_one (k := exK) rfl (L := ones111) (R := ones111) sqrtNorm_contract exC_pos Complex.I
   exact ⟨C1, h, exC_sparse, (bond_step_sparse h ones_blockSparse ones_blockSparse rfl rfl exC_sparse).1⟩
 
 /-- non-vacuity of `env_step_left_sparse`, `env_step_right_sparse`: the steps run on `Evo.exA`, `σ_z` and the trivial block -/
